@@ -23,6 +23,24 @@ def check(ctx):
         kind = "dotdot" if b".." in name else ("slash" if b"/" in name else "other")
         return "%s name-kind=%s" % (inv, kind)
     trace_validate(ctx, "Trace_Path", tr, events, "random-names-file-tree-delta-validated-by-Trace_Path", sig)
+    # the real server with its own default handler: sessions of several terminals overlapping in time (also with the same file
+    # name), and sessions that fail half way with a hostile name; every file found afterwards must lie in the directory of the
+    # terminal whose bytes it holds
+    import tempfile, shutil
+    work = tempfile.mkdtemp(prefix="verif_c19_overlap_")
+    ov = os.path.join(ctx.scratch, "overlap.ndjson")
+    # the walked root is one level above the server's working directory, so that escapes by one level are seen
+    os.makedirs(os.path.join(work, "up1", "up2", "cwd"))
+    r = ctx.vh(["live-attach-overlap", os.path.join(work, "up1", "up2", "cwd"), ov], timeout=300, cwd=work)
+    if r.returncode != 0:
+        shutil.rmtree(work, ignore_errors=True)
+        from checks import live_common as lc
+        lc.crash_check(ctx, r.returncode, r.stderr, "live-attach-overlap")
+    oev = vlib.read_nd(ov, quoted=False) if os.path.exists(ov) else []
+    shutil.rmtree(work, ignore_errors=True)
+    if len(oev) < 4:
+        raise vlib.ToolFailure("live-attach-overlap recorded only %d events" % len(oev))
+    trace_validate(ctx, "Trace_Path", ov, oev, "overlapping-sessions-on-the-live-attachment-server", lambda inv, e: "%s overlap owner=%s" % (inv, "known" if bytes(e.get("phone", [])) != b"nobody" else "nobody"))
     ctx.cov["rule"] = ("MC_Path: every name of <= MaxSegs segments over {'..','.','','a','b c'}, rooted and not, plus '../'-repetitions "
                        "up to the 255-byte wire limit; one real session per name with the default handler in a sandbox with decoys; "
                        "the created/modified file set must be confined. Random byte names the other way round.")
